@@ -459,7 +459,7 @@ def g_cfg(rng, tier, heralds=None, lossy=False, source=False, max_modes=None):
     nh = min(nh, n - 1)
     ins = rng.sample(range(n), nh)
     outs = rng.sample(range(n), nh)
-    her = [[rng.choice([0, 1, 1, 1, 2]) if rng.random() < 0.9 else 2, ins[i], outs[i]] for i in range(nh)]
+    her = [[rng.choice([0, 1, 1, 1, 1, 1, 0, 1, 1, 2]), ins[i], outs[i]] for i in range(nh)]
     budget = (3 if tier == "quick" else 4) - sum(h[0] for h in her)
     inp = [0] * (n - nh)
     for _ in range(max(0, rng.randint(0 if nh else 1, max(1, budget)))):
@@ -513,6 +513,37 @@ def g_psel(rng, nm, state_attr=True):
             rules.append([ms, ns])
         return dict(rules=rules)
     return dict(fun=g_pred(rng, nm, 2, state_attr))
+
+
+def g_psel_sat(rng, c, nm):
+    """mostly satisfiable post-selections: redraw (85%) one that no heralded output can pass."""
+    items, her, _, _ = sampler_info(cfg_of(c))
+    if her and max(n for _, n in her) > 1 and not c["det"]["pc"] and rng.random() < 0.7:
+        c["det"]["pc"] = True
+    for _ in range(6):
+        ps = g_psel(rng, nm)
+        try:
+            law = ref_law_inputs(items, dict(eff=1.0, pdark=0.0, pc=c["det"]["pc"]), her, ps, 0)
+        except Exception:  # noqa: BLE001
+            law = {}
+        if law or rng.random() < 0.15:
+            return ps
+    return None
+
+
+def g_mind(rng, c):
+    """min_detection at the equality boundary: k-1, k, k+1 for a photon number k that kept states
+    actually have (perfect-detector law; efficiency / dark counts move the real numbers around it)."""
+    items, her, _, _ = sampler_info(cfg_of(c))
+    try:
+        law = ref_law_inputs(items, dict(eff=1.0, pdark=0.0, pc=c["det"]["pc"]), her, c["psel"], 0)
+    except Exception:  # noqa: BLE001
+        law = {}
+    phs = sorted({sum(s) for s in law})
+    if not phs or rng.random() < 0.25:
+        return rng.choice([0, 0, 0, 1])
+    k = rng.choice(phs)
+    return max(0, rng.choice([k - 1, k, k, k, k + 1 if rng.random() < 0.5 else k]))
 
 
 def _bad_total(items):
@@ -615,9 +646,10 @@ class C07:
                 cfg = g_cfg(rng, tier, lossy=rng.random() < 0.25, source=rng.random() < 0.3)
                 nm = len(cfg["input"])
                 ph = sum(cfg["input"])
-                c = dict(kind="n_inputs", **cfg, det=g_det(rng), psel=g_psel(rng, nm),
-                         mind=rng.choice([0, 0, max(0, ph - 1), ph, ph + 1, 1]),
-                         N=rng.choice([0, 1, 7, nd, nd]), seed=rng.randint(0, 10 ** 6))
+                c = dict(kind="n_inputs", **cfg, det=g_det(rng), psel=None, mind=0,
+                         N=rng.choice([0, 1, 7, nd, nd, nd]), seed=rng.randint(0, 10 ** 6))
+                c["psel"] = g_psel_sat(rng, c, nm)
+                c["mind"] = g_mind(rng, c)
                 return c
             add(self._try(mk))
 
@@ -628,9 +660,10 @@ class C07:
                 nm = len(cfg["input"])
                 ph = sum(cfg["input"])
                 det = g_det(rng, "nodark") if rng.random() < 0.9 else g_det(rng)
-                c = dict(kind="n_outputs", **cfg, det=det, psel=g_psel(rng, nm),
-                         mind=rng.choice([0, 0, max(0, ph - 1), ph, ph + 1, 1]),
-                         N=rng.choice([0, 1, 7, nd, nd]), seed=rng.randint(0, 10 ** 6))
+                c = dict(kind="n_outputs", **cfg, det=det, psel=None, mind=0,
+                         N=rng.choice([0, 1, 7, nd, nd, nd]), seed=rng.randint(0, 10 ** 6))
+                c["psel"] = g_psel_sat(rng, c, nm)
+                c["mind"] = g_mind(rng, c)
                 return c
             add(self._try(mk))
 
@@ -1201,9 +1234,15 @@ class C07:
             if "det" in c:
                 d = c["det"]
                 dets[("eff<1" if d["eff"] < 1 else "eff=1") + (",dark" if d["pdark"] > 0 else "") + (",pnr" if d["pc"] else ",thr")] += 1
+        acc = Counter()
+        for r in recs:
+            c, o = r["case"], r["impl"]
+            if c["kind"] == "n_inputs" and isinstance(o, dict) and "ok" in o and c["N"] > 1:
+                kept = sum(n for _, n in o["ok"]["counts"])
+                acc["none kept" if kept == 0 else "all kept" if kept == c["N"] else "some dropped"] += 1
         her = Counter(len(c.get("heralds", [])) for c in cases if "heralds" in c)
         return {"kinds": dict(kinds), "outcomes": dict(outcome), "replayed_draws": draws,
-                "detector_settings": dict(dets), "n_heralds": {str(k): v for k, v in her.items()},
+                "n_inputs_acceptance": dict(acc), "detector_settings": dict(dets), "n_heralds": {str(k): v for k, v in her.items()},
                 "stat_test": {"fwer": FWER, "max_cells": MAX_CELLS, "threshold_n_KL": LOG_2_OVER_ALPHA}}
 
     def signature(self, c, rec):
